@@ -16,12 +16,14 @@ import struct
 from fractions import Fraction
 
 from vlib import common as C
+from checks import c05_doc as D
 
 EPS2 = 2.0 * 2.0 ** -52            # issmall threshold
 DMIN = 2.0 ** -1022
 DMAX = 1.7976931348623157e308
 PEN = DMAX / 100.0
 KINDS = ["mae", "rmae", "mse", "count"]
+PEN_TYPES = ["d", "d", "fn", "fl", "i", "u", "l", "ul", "b"]
 PROGS1 = ["x1", "x1", "x1", "x2", "div", "ln", "add", "sub", "mul", "abs", "neg", "mulbig", "big", "tiny"]
 
 
@@ -242,6 +244,50 @@ class Gen:
             rows.append((t, x1, x2, d))
         return rows
 
+    # -- classification: one output style per class, aimed at degenerate distributions ------
+    CLS_STYLES = ["spread", "spread", "const", "const", "undef_all", "undef_some", "huge", "tiny",
+                  "nearconst", "any", "single", "zeros"]
+
+    def cls_inputs(self, style, base):
+        """(x1, x2) of one example of a class whose outputs follow `style`"""
+        r = self.r
+        if style == "const":
+            return base
+        if style == "undef_all":
+            return (None, base[1])
+        if style == "undef_some":
+            return (None, base[1]) if r.chance(0.35) else (base[0], base[1])
+        if style == "huge":
+            return (self.dbl(5), r.choice([1.0, base[1], self.dbl(5)]))
+        if style == "tiny":
+            return (self.dbl(6), r.choice([1.0, base[1], self.dbl(6)]))
+        if style == "nearconst":     # variance around the issmall threshold (2.2e-8)^2 ~ 4.4e-16
+            return (base[0] + r.choice([0.0, 0.0, 1.5e-8, 2e-8, 2.2e-8, 3e-8, 1e-7, -2e-8]), base[1])
+        if style == "zeros":         # division by zero / ln(0): no value
+            return (r.choice([0.0, -0.0, base[0]]), r.choice([0.0, -0.0, base[1]]))
+        if style == "any":
+            return (self.dbl(), self.dbl())
+        # spread
+        return (base[0] + float(r.between(-3, 4)) * r.choice([1.0, 0.25]), base[1] + float(r.between(-1, 2)))
+
+    def cls_rows_structured(self, prog, ncl):
+        r = self.r
+        same_base = r.chance(0.15)          # every class around the same point: identical distributions
+        base0 = (float(r.between(-20, 21)), float(r.between(1, 9)))
+        rows = []
+        for c in range(ncl):
+            style = r.choice(self.CLS_STYLES)
+            base = base0 if same_base else r.choice([(float(r.between(-40, 41)), float(r.between(-3, 9))),
+                                                     (self.dbl(3), self.dbl(3)), (self.dbl(7), 1.0),
+                                                     (float(c * 5), 1.0)])
+            k = 1 if style == "single" else r.choice([1, 2, 2, 3, 5, 8, r.between(2, 30)])
+            for _ in range(k):
+                x1, x2 = self.cls_inputs(style, base)
+                for v in (x1, x2):
+                    assert v is None or math.isfinite(v)
+                rows.append((c, x1, x2, r.choice([0, 0, 3, r.below(500)])))
+        return rows
+
     def nrows(self, big):
         r = self.r
         k = r.below(10)
@@ -259,8 +305,8 @@ def reg_line(kind, fast, prog, rows, pen=None):
     return head + "".join(f" {tok(t)} {tok(x1)} {tok(x2)} {d}" for t, x1, x2, d in rows)
 
 
-def cls_line(kind, xslot, prog, rows):
-    return f"cls {kind} {xslot} {prog} {len(rows)}" + "".join(
+def cls_line(kind, xslot, prog, rows, fast=False):
+    return f"{'clsf' if fast else 'cls'} {kind} {xslot} {prog} {len(rows)}" + "".join(
         f" {c} {tok(x1)} {tok(x2)} {d}" for c, x1, x2, d in rows)
 
 
@@ -286,31 +332,77 @@ def gen_cases(chk, rng):
                 k2 = rng.below(j + 1)
                 perm[j], perm[k2] = perm[k2], perm[j]
             lines.append(reg_line(kind, fast, prog, perm, pen))
-    ncls = 6000 if quick else 45000
+    ncls = 5400 if quick else 40000
     for i in range(ncls):
-        kind = ["dyn", "gau", "bin"][i % 3]
+        kind = ["dyn", "gau", "bin", "gau"][i % 4]
         prog = g.prog()
-        n = g.nrows(not quick or rng.chance(0.3))
         ncl = 2 if kind == "bin" else rng.choice([2, 2, 3, 4, 7])
-        n = max(n, ncl)
-        style = rng.below(6)
-        pu = rng.choice([0.0, 0.0, 0.05, 0.3, 1.0])
-        rows = []
-        for j in range(n):
-            c = j if j < ncl else (rng.below(ncl) if rng.chance(0.8) else 0)
-            fl = None if style >= 4 else rng.choice([style, None])
-            x1 = None if rng.chance(pu) else g.dbl(fl)
-            x2 = None if rng.chance(pu / 2) else g.dbl(fl)
-            rows.append((c, x1, x2, rng.choice([0, 0, 3, rng.below(500)])))
+        if rng.chance(0.5):
+            rows = g.cls_rows_structured(prog, ncl)
+        else:
+            n = max(g.nrows(not quick or rng.chance(0.3)), ncl)
+            style = rng.below(6)
+            pu = rng.choice([0.0, 0.0, 0.05, 0.3, 1.0])
+            rows = []
+            for j in range(n):
+                c = j if j < ncl else (rng.below(ncl) if rng.chance(0.8) else 0)
+                fl = None if style >= 4 else rng.choice([style, None])
+                x1 = None if rng.chance(pu) else g.dbl(fl)
+                x2 = None if rng.chance(pu / 2) else g.dbl(fl)
+                rows.append((c, x1, x2, rng.choice([0, 0, 3, rng.below(500)])))
         # shuffle so that class ids are not simply in order of the first rows
         for j in range(len(rows) - 1, 0, -1):
             k2 = rng.below(j + 1)
             rows[j], rows[k2] = rows[k2], rows[j]
-        lines.append(cls_line(kind, rng.choice([1, 2, 10, 10, 17]), prog, rows))
+        lines.append(cls_line(kind, rng.choice([1, 2, 10, 10, 17]), prog, rows, fast=rng.chance(0.1)))
     for v in [0.0, -0.0, 1.0, -2.5, DMAX, -DMAX, 5e-324, float("inf"), float("-inf"), float("nan")]:
         lines.append("ga " + tok(v))
     for _ in range(60 if quick else 600):
         lines.append("ga " + tok(g.dbl()))
+    # GA / DE evaluators: finite and non-finite objective values, operator() and fast()
+    special = [0.0, -0.0, 1.0, -2.5, DMAX, -DMAX, 5e-324, float("inf"), float("-inf"), float("nan")]
+    for cmd in ("gaf", "de", "def"):
+        for v in special:
+            lines.append(cmd + " " + tok(v))
+        for _ in range(20 if quick else 200):
+            lines.append(cmd + " " + tok(g.dbl()))
+    # constrained evaluator: every penalty shape x (GA / DE objective | error-based evaluator)
+    def pen_case():
+        ty = rng.choice(PEN_TYPES)
+        if ty in ("d", "fn"):
+            v = rng.choice([0.0, -0.0, 1.0, 2.5, 1e300, DMAX, 5e-324, g.dbl(), abs(g.dbl()),
+                            float("inf"), float("nan"), -1.0])
+            return ty, tok(v)
+        if ty == "fl":
+            v = rng.choice([0.0, 1.0, 0.1, 3.4e38, 1e-45, abs(g.dbl(3)), float("inf")])
+            return ty, tok(v)
+        if ty == "b":
+            return ty, str(rng.below(2))
+        if ty == "u":
+            return ty, str(rng.choice([0, 1, 2, 3, 1000, 2 ** 31, 2 ** 32 - 1, rng.below(2 ** 32)]))
+        if ty == "ul":
+            return ty, str(rng.choice([0, 1, 3, 2 ** 53 + 1, 2 ** 63, rng.below(2 ** 40)]))
+        if ty == "i":
+            return ty, str(rng.choice([0, 1, 2, 7, 2 ** 31 - 1, rng.below(2 ** 20), -1]))
+        return ty, str(rng.choice([0, 1, 5, 2 ** 53 + 1, 2 ** 62, rng.below(2 ** 50), -3]))
+    for _ in range(260 if quick else 2600):
+        ty, pv = pen_case()
+        v = rng.choice(special + [g.dbl(), g.dbl()])
+        lines.append(f"gac {ty} {pv} {rng.below(2)} {rng.choice(['ga', 'de'])} {tok(v)}")
+    for i in range(500 if quick else 5000):
+        ty, pv = pen_case()
+        kind = KINDS[i % 4]
+        prog = g.prog()
+        fast = rng.chance(0.3)
+        n = rng.between(100, 130) if fast else g.nrows(False)
+        rows = g.rows(prog, n, rng.chance(0.1))
+        lines.append(f"conp {ty} {pv} " + reg_line(kind, fast, prog, rows)[4:])
+    # test_evaluator: histories of calls on one object
+    for _ in range(150 if quick else 1500):
+        k = rng.between(1, 25)
+        pool = rng.between(1, 9)
+        ids = [rng.below(pool) * rng.choice([1, 1, 3]) for _ in range(k)]
+        lines.append(f"tev {rng.choice(['distinct', 'fixed', 'random'])} {rng.below(2)} {k} " + " ".join(map(str, ids)))
     for v in [0.0, EPS2, -EPS2, math.nextafter(EPS2, 0), -math.nextafter(EPS2, 0), 1.0, float("inf"), float("nan"), 5e-324]:
         lines.append("small " + tok(v))
     return lines
@@ -320,12 +412,33 @@ def gen_cases(chk, rng):
 # one pass: harness -> model -> compare + oracle
 # ---------------------------------------------------------------------------
 
+def parse_cls(line, cpp):
+    """fields of a cls / clsf case and of the harness answer (None when the answer is malformed)"""
+    t, c = line.split(), cpp.split()
+    n = int(t[4])
+    try:
+        ti, li, dpos, mi = c.index("tags"), c.index("labels"), c.index("diff"), c.index("mouts")
+        ncl = int(c[c.index("classes") + 1])
+        members = int(c[c.index("members") + 1])
+    except ValueError:
+        return None
+    mo = c[mi + 1:mi + 1 + members * n]
+    if len(mo) != members * n or len(c[dpos + 1:dpos + 1 + n]) != n:
+        return None
+    rows = t[5:]
+    return {"kind": t[1], "xslot": int(t[2]), "n": n, "ncl": ncl, "members": members,
+            "mouts": [mo[m * n:(m + 1) * n] for m in range(members)],
+            "tags": c[ti + 1:ti + 1 + 2 * n], "labels": [int(x) for x in c[li + 1:li + 1 + n]],
+            "after": [int(x) for x in c[dpos + 1:dpos + 1 + n]],
+            "before": [int(rows[4 * i + 3]) for i in range(n)], "fit": c[2] if c[1] == "fit" else None}
+
+
 def lean_request(line, cpp):
     """the model's input for a harness case: the program's outputs come from the harness"""
     t = line.split()
     c = cpp.split()
-    if t[0] in ("reg", "con"):
-        at = 1 if t[0] == "reg" else 2
+    if t[0] in ("reg", "con", "conp"):
+        at = {"reg": 1, "con": 2, "conp": 3}[t[0]]
         kind, fast, n = t[at], t[at + 1] == "1", int(t[at + 3])
         try:
             o = c.index("outs")
@@ -339,20 +452,27 @@ def lean_request(line, cpp):
         step = 5 if fast else 1
         if t[0] == "reg":
             return f"soe {kind} {step} {n}" + body
-        return f"csoe {t[1]} {kind} {step} {n}" + body
-    if t[0] == "cls":
-        n = int(t[4])
-        try:
-            ti, li = c.index("tags"), c.index("labels")
-            ncl = int(c[c.index("classes") + 1])
-        except ValueError:
+        if t[0] == "con":
+            return f"csoe {t[1]} {kind} {step} {n}" + body
+        return f"cpsoe {t[1]} {t[2]} {kind} {step} {n}" + body
+    if t[0] in ("cls", "clsf"):
+        f = parse_cls(line, cpp)
+        if f is None:
             return None
-        tags, labels = c[ti + 1:ti + 1 + 2 * n], c[li + 1:li + 1 + n]
-        rows = t[5:]
-        if t[1] == "gau":
-            return f"gau {ncl} {n}" + "".join(
-                f" {tags[2 * i]} {tags[2 * i + 1]} {labels[i]} {rows[4 * i + 3]}" for i in range(n))
-        return f"cnt {n}" + "".join(f" {tags[2 * i]} {labels[i]} {rows[4 * i + 3]}" for i in range(n))
+        n, m = f["n"], f["members"]
+        body = "".join(f" {f['labels'][i]} {f['before'][i]}" + "".join(" " + f["mouts"][k][i] for k in range(m))
+                       for i in range(n))
+        if f["kind"] == "dyn":
+            return f"dynx {f['ncl']} {f['xslot']} {m} {n}" + body
+        if f["kind"] == "gau":
+            return f"gaux {f['ncl']} {m} {n}" + body
+        return f"binx {m} {n}" + body
+    if t[0] in ("gaf", "de", "def"):
+        return "ga " + t[1]              # `fast()` is not overridden: the same function
+    if t[0] == "gac":
+        return f"gac {t[1]} {t[2]} {t[5]}"
+    if t[0] == "tev":
+        return f"tev {t[1]} " + " ".join(t[3:])
     return line   # ga / small: same request
 
 
@@ -362,8 +482,13 @@ def cpp_canon(line, cpp):
     if not c or c[0] != "ok":
         return cpp
     t = line.split()
-    if t[0] == "ga":
+    if t[0] in ("ga", "gaf", "de", "def", "gac", "tev"):
         return " ".join(c[1:])
+    if t[0] in ("cls", "clsf"):
+        f = parse_cls(line, cpp)
+        if f is None:
+            return cpp
+        return f"fit {f['fit']} tags " + " ".join(f["tags"]) + " diff " + " ".join(map(str, f["after"]))
     keep = []
     i = 1
     while i < len(c) and c[i] not in ("outs", "classes", "tags", "labels", "diff"):
@@ -374,7 +499,51 @@ def cpp_canon(line, cpp):
     return " ".join(keep)
 
 
-def oracle(line, cpp):
+def pen_value(ty, v):
+    """the penalty as the number the penalty function returned (a Python float / int)"""
+    if ty in ("d", "fn"):
+        return untok(v)
+    if ty == "fl":
+        x = untok(v)
+        if x != x or math.isinf(x):
+            return x
+        try:
+            return struct.unpack("<f", struct.pack("<f", x))[0]
+        except OverflowError:
+            return math.copysign(math.inf, x)
+    if ty == "b":
+        return 1 if int(v) else 0
+    return int(v)
+
+
+def pen_oracle(ty, v, first, name):
+    """documented: the first component is minus the penalty"""
+    pv = pen_value(ty, v)
+    want = -float(pv)
+    if (want != want and first != first) or first == want:
+        return []
+    return [(f"{name}: first component {first!r} is not minus the penalty {pv!r} (penalty function returning "
+             f"{ {'d': 'double', 'fn': 'double (std::function)', 'fl': 'float', 'i': 'int', 'u': 'unsigned', 'l': 'long long', 'ul': 'std::size_t', 'b': 'bool'}[ty]})",
+             {"evaluator": "constrained", "kind": "prepend", "ptype": ty})]
+
+
+def test_rnd(dist):
+    """`static engine_t e; e.seed(dist); e()` of xoshiro256** seeded through splitmix64, as a double"""
+    M = (1 << 64) - 1
+    x = dist if dist else 0xcced1fc561884152
+    st = []
+    for _ in range(4):
+        x = (x + 0x9E3779B97F4A7C15) & M
+        z = x
+        z = ((z ^ (z >> 30)) * 0xBF58476D1CE4E5B9) & M
+        z = ((z ^ (z >> 27)) * 0x94D049BB133111EB) & M
+        st.append(z ^ (z >> 31))
+    r = (st[1] * 5) & M
+    r = ((r << 7) | (r >> 57)) & M
+    return float((r * 9) & M)
+
+
+def oracle(line, cpp, stats=None):
     """Judge one harness answer against the PROPERTY (no Lean involved).
     Returns a list of (what, tags)."""
     bad = []
@@ -387,20 +556,43 @@ def oracle(line, cpp):
             if cpp.strip() != want:
                 bad.append((f"issmall({v!r}) returned {cpp}, documented {want}", {"evaluator": "issmall"}))
         return bad
-    if t[0] == "ga":
-        v = untok(t[1])
+    if t[0] in ("ga", "gaf", "de", "def", "gac"):
+        v = untok(t[5] if t[0] == "gac" else t[1])
         k = int(c[2])
         vals = c[3:3 + k]
+        name = ("ga_evaluator<i_de>" if (t[0] in ("de", "def") or (t[0] == "gac" and t[4] == "de")) else "ga_evaluator") + \
+               (".fast" if (t[0] in ("gaf", "def") or (t[0] == "gac" and t[3] == "1")) else "")
+        if t[0] == "gac":
+            if k < 1:
+                return [(f"constrained {name} returned an empty fitness", {"evaluator": "constrained", "kind": "shape"})]
+            bad += pen_oracle(t[1], t[2], untok(vals[0]), "constrained_evaluator around " + name)
+            vals, k = vals[1:], k - 1
         if math.isfinite(v):
             if k != 1 or vals[0] != tok(v):
-                bad.append((f"ga_evaluator returned {c[1:]} for the finite objective value {v!r}",
+                bad.append((f"{name} returned {c[1:]} for the finite objective value {v!r}",
                             {"evaluator": "ga", "kind": "value"}))
         elif k != 0:
-            bad.append((f"ga_evaluator returned {c[1:]} for the non-finite objective value {v!r} (documented: empty fitness)",
+            bad.append((f"{name} returned {c[1:]} for the non-finite objective value {v!r} (documented: empty fitness)",
                         {"evaluator": "ga", "kind": "nonfinite"}))
         return bad
-    if t[0] in ("reg", "con"):
-        at = 1 if t[0] == "reg" else 2
+    if t[0] == "tev":
+        kind, k = t[1], int(t[3])
+        ids = t[4:4 + k]
+        got = c[2:2 + k]
+        seen = []
+        want = []
+        for x in ids:
+            if x not in seen:
+                seen.append(x)
+            d = seen.index(x)
+            want.append(tok(0.0) if kind == "fixed" else tok(float(d)) if kind == "distinct" else tok(test_rnd(d)))
+        if got != want:
+            bad.append((f"test_evaluator({kind}): history {ids} gave {[untok(g) if g[0] != 's' else g for g in got]}, "
+                        f"documented (time-invariant, {kind}) {[untok(w) for w in want]}",
+                        {"evaluator": "test", "kind": kind}))
+        return bad
+    if t[0] in ("reg", "con", "conp"):
+        at = {"reg": 1, "con": 2, "conp": 3}[t[0]]
         kind, fast, n = t[at], t[at + 1] == "1", int(t[at + 3])
         step = 5 if fast else 1
         rows = t[at + 4:]
@@ -414,11 +606,11 @@ def oracle(line, cpp):
         else:
             if c[1] != "fitv" or c[2] != "2":
                 return [("constrained fitness is %s" % " ".join(c[1:o]), {"evaluator": "constrained", "kind": "shape"})]
-            pen = untok(t[1])
             first = untok(c[3])
-            if tok(first) != tok(-pen):
-                bad.append((f"constrained_evaluator: first component {first!r} is not minus the penalty {pen!r}",
-                            {"evaluator": "constrained", "kind": "prepend"}))
+            if t[0] == "con":
+                bad += pen_oracle("d", t[1], first, "constrained_evaluator")
+            else:
+                bad += pen_oracle(t[1], t[2], first, "constrained_evaluator")
             fit = untok(c[4])
         tg = [untok(rows[4 * i]) for i in range(n)]
         before = [int(rows[4 * i + 3]) for i in range(n)]
@@ -428,7 +620,6 @@ def oracle(line, cpp):
         elif fit > 0:
             bad.append((f"{kind}_evaluator returned a positive fitness {fit!r}", dict(tags, kind="positive")))
         vis = visited_rows(n, step)
-        errs = [doc_err(kind, outs[i], tg[i]) for i in vis]
         visset = set(vis)
         wrongrows = []
         for i in range(n):
@@ -461,22 +652,18 @@ def oracle(line, cpp):
                     bad.append((f"{kind}_evaluator: fitness {fit!r} is not minus the mean documented error {mean!r}",
                                 dict(tags, kind="mean")))
         return bad
-    if t[0] == "cls":
-        kind, n = t[1], int(t[4])
-        rows = t[5:]
-        ti, li, dpos = c.index("tags"), c.index("labels"), c.index("diff")
-        ncl = int(c[c.index("classes") + 1])
-        tg = c[ti + 1:ti + 1 + 2 * n]
-        lab = [int(x) for x in c[li + 1:li + 1 + n]]
-        after = [int(x) for x in c[dpos + 1:dpos + 1 + n]]
-        before = [int(rows[4 * i + 3]) for i in range(n)]
+    if t[0] in ("cls", "clsf"):
+        f = parse_cls(line, cpp)
+        name = {"dyn": "dyn_slot", "gau": "gaussian", "bin": "binary"}[t[1]] + (".fast" if t[0] == "clsf" else "")
+        tags = {"evaluator": name.split(".")[0]}
+        if f is None or f["fit"] is None:
+            return [("fitness shape " + " ".join(c[1:3]), dict(tags, kind="shape"))]
+        kind, n, ncl = f["kind"], f["n"], f["ncl"]
+        tg, lab, after, before = f["tags"], f["labels"], f["after"], f["before"]
         tl = [int(tg[2 * i]) for i in range(n)]
         sure = [untok(tg[2 * i + 1]) for i in range(n)]
-        name = {"dyn": "dyn_slot", "gau": "gaussian", "bin": "binary"}[kind]
-        tags = {"evaluator": name}
-        if c[1] != "fit":
-            return [("fitness shape " + " ".join(c[1:3]), dict(tags, kind="shape"))]
-        fit = untok(c[2])
+        fit = untok(f["fit"])
+        # (a) against the answers of a separately built classifier object
         nwrong = sum(1 for i in range(n) if tl[i] != lab[i])
         if fit != fit:
             bad.append((f"{name}_evaluator returned a NaN fitness", dict(tags, kind="nan")))
@@ -494,6 +681,34 @@ def oracle(line, cpp):
             i = wr[0]
             bad.append((f"{name}_evaluator: difficulty of example {i} went {before[i]} -> {after[i]} "
                         f"(tag {tl[i]}, label {lab[i]}); {len(wr)} rows differ", dict(tags, kind="difficulty")))
+        if any(not (s == s and 0.0 <= s <= 1.0) for s in sure) and kind != "bin":
+            i = [k for k in range(n) if not (sure[k] == sure[k] and 0.0 <= sure[k] <= 1.0)][0]
+            bad.append((f"{name}: confidence {sure[i]!r} of example {i} is outside [0, 1]", dict(tags, kind="confidence")))
+        # (b) against the DOCUMENTED rule, recomputed from the outputs of the member programs
+        mouts = [[untok(x) for x in row] for row in f["mouts"]]
+        st = D.GaussStats() if kind == "gau" else None
+        doc = D.documented(kind, mouts, lab, ncl, f["xslot"], st)
+        if stats is not None:
+            stats["doc"] = doc
+            stats["gauss"] = st
+            stats["mouts"] = mouts
+        if not doc["ambiguous"]:
+            dw = doc["wrong"]
+            wr = [i for i in range(n) if after[i] != before[i] + (1 if dw[i] else 0)]
+            if wr:
+                i = wr[0]
+                bad.append((f"{name}_evaluator: difficulty of example {i} went {before[i]} -> {after[i]} but the documented "
+                            f"classifier {'misclassifies' if dw[i] else 'recognises'} it (outputs "
+                            f"{[m[i] for m in mouts]!r}, documented tag {doc['tags'][i][0]}, label {lab[i]}); {len(wr)} rows differ",
+                            dict(tags, kind="doc-difficulty")))
+            if fit == fit and abs(fit - doc["fitness"]) > doc["tol"]:
+                bad.append((f"{name}_evaluator returned {fit!r}; the documented rule applied to the program's outputs gives "
+                            f"{doc['fitness']!r} (tolerance {doc['tol']:.3g})", dict(tags, kind="doc-fitness")))
+            dl = [x[0] for x in doc["tags"]]
+            if dl != tl and not wr:
+                i = [k for k in range(n) if dl[k] != tl[k]][0]
+                bad.append((f"{name}: the classifier tags example {i} as {tl[i]}, the documented rule as {dl[i]} "
+                            f"(outputs {[m[i] for m in mouts]!r})", dict(tags, kind="doc-tag")))
         return bad
     return bad
 
@@ -514,12 +729,12 @@ def evaluate(exe, lines, drv_ok):
 def shrink(exe, line, still_fails):
     """drop rows of a reg / con / cls case while the oracle still fails"""
     t = line.split()
-    if t[0] not in ("reg", "con", "cls"):
+    if t[0] not in ("reg", "con", "conp", "cls", "clsf"):
         return line
-    at = {"reg": 4, "con": 5, "cls": 4}[t[0]]      # index of <n>
+    at = {"reg": 4, "con": 5, "conp": 6, "cls": 4, "clsf": 4}[t[0]]      # index of <n>
     head, rows = t[:at], t[at + 1:]
     rows = [rows[i:i + 4] for i in range(0, len(rows), 4)]
-    fast = t[0] != "cls" and t[at - 2] == "1"
+    fast = t[0] not in ("cls", "clsf") and t[at - 2] == "1"
 
     def mk(rs):
         return " ".join(head + [str(len(rs))] + [x for r in rs for x in r])
@@ -533,7 +748,7 @@ def shrink(exe, line, still_fails):
             rs = rows[:s] + rows[s + chunk:]
             if not rs or (fast and len(rs) < 100):
                 continue
-            if t[0] == "cls" and len({r[0] for r in rs}) < 2:
+            if t[0] in ("cls", "clsf") and len({r[0] for r in rs}) < 2:
                 continue
             cands.append(rs)
         if not cands:
@@ -596,7 +811,8 @@ def run(chk, replay=None):
         c = cpp[i]
         if c.startswith("died") or c == "skipped":
             continue
-        key = t[0] + ":" + (t[1] if t[0] in ("reg", "cls") else t[2] if t[0] == "con" else "")
+        key = t[0] + ":" + (t[1] if t[0] in ("reg", "cls", "clsf", "tev") else t[2] if t[0] == "con" else
+                            t[3] if t[0] == "conp" else t[4] if t[0] == "gac" else "")
         chk.count("case:" + key)
         chk.seen(line, nontrivial=t[0] not in ("small",))
         if not c.startswith("ok") and t[0] != "small":
@@ -604,8 +820,9 @@ def run(chk, replay=None):
             broken.append(f"harness answered `{c[:200]}` to `{line[:200]}`")
             continue
         # ---- distribution (measured) ----
-        if t[0] in ("reg", "con"):
-            at = 1 if t[0] == "reg" else 2
+        ostats = {}
+        if t[0] in ("reg", "con", "conp"):
+            at = {"reg": 1, "con": 2, "conp": 3}[t[0]]
             n = int(t[at + 3])
             cs = c.split()
             outs = cs[cs.index("outs") + 1:cs.index("outs") + 1 + n]
@@ -616,6 +833,8 @@ def run(chk, replay=None):
                 chk.count("fast")
             if t[at + 2].startswith("t:"):
                 chk.count("team_programs")
+            if t[0] == "conp":
+                chk.count("penalty_type:" + t[1])
             fitv = untok(cs[2]) if cs[1] == "fit" else None
             if fitv is not None and fitv == 0:
                 chk.count("zero_fitness")
@@ -624,15 +843,50 @@ def run(chk, replay=None):
             es = [doc_err(kind, untok(outs[j]), untok(rows[4 * j])) for j in range(n)]
             if any(not math.isfinite(e) for e in es):
                 chk.count("overflowing_error_cases")
-        elif t[0] == "cls":
+        elif t[0] in ("cls", "clsf"):
             n = int(t[4])
             chk.count("examples", n)
-            cs = cs2 = c.split()
+            cs2 = c.split()
             chk.count("classes:" + cs2[cs2.index("classes") + 1])
             if t[3].startswith("t:"):
                 chk.count("team_programs")
+            if t[0] == "clsf":
+                chk.count("fast")
+        elif t[0] == "gac":
+            chk.count("penalty_type:" + t[1])
+            if not math.isfinite(untok(t[5])):
+                chk.count("gac_nonfinite_objective")
+        elif t[0] in ("ga", "gaf", "de", "def"):
+            if not math.isfinite(untok(t[1])):
+                chk.count("nonfinite_objective:" + t[0])
         # ---- the property's own oracle ----
-        for what, tags in oracle(line, c):
+        verdicts = oracle(line, c, ostats)
+        if t[0] in ("cls", "clsf") and "doc" in ostats:
+            # what the classification cases exercised (measured on the outputs of the real programs)
+            doc, gs, mouts = ostats["doc"], ostats["gauss"], ostats["mouts"]
+            k = "cls_" + t[1] + ":"
+            chk.count(k + ("ambiguous_not_judged_by_documented_rule" if doc["ambiguous"] else "judged_by_documented_rule"))
+            und = sum(1 for m in mouts for o in m if o is None)
+            if und:
+                chk.count(k + "cases_with_undefined_outputs")
+                chk.count(k + "undefined_outputs", und)
+            if any(o is not None and abs(o) > 1e7 for m in mouts for o in m):
+                chk.count(k + "cases_with_outputs_beyond_1e7")
+            if any(o is not None and abs(o) >= 1e300 for m in mouts for o in m):
+                chk.count(k + "cases_with_astronomical_outputs")
+            if all(o is None for m in mouts for o in m):
+                chk.count(k + "cases_all_outputs_undefined")
+            if gs is not None:
+                for nm, v in (("class_all_undefined", gs.class_all_undefined), ("class_zero_variance", gs.class_zero_variance),
+                              ("class_single_example", gs.class_single), ("identical_class_distributions", gs.identical),
+                              ("examples_all_probabilities_zero", gs.underflow)):
+                    if v:
+                        chk.count(k + "cases_with_" + nm)
+                for r in set(gs.ambiguous):
+                    chk.count(k + "ambiguous:" + r)
+            if doc["fitness"] is not None and doc["fitness"] == 0 and not doc["ambiguous"]:
+                chk.count(k + "zero_fitness")
+        for what, tags in verdicts:
             sig = (tags.get("evaluator"), tags.get("kind"))
             chk.count("oracle_fail:%s/%s" % sig)
             if sig in reported:
